@@ -5,9 +5,9 @@
 # and the demo fails with it.  Prints one line per fact; exit 0 iff all hold.
 d=$(readlink -f "$1")
 wt=$(mktemp -d /tmp/seeded-confirm-XXXXXX); rmdir "$wt"
-git -C /repo worktree add -f "$wt" HEAD >/dev/null 2>&1
+git -C /repo worktree add -f "$wt" ${SEEDED_BASE:-HEAD} >/dev/null 2>&1
 trap 'git -C /repo worktree remove --force "$wt" >/dev/null 2>&1 || rm -rf "$wt"' EXIT
-if [ -f "$d/demo.py" ]; then demo="/venv/bin/python $d/demo.py"; else demo="sh $d/demo.sh"; fi
+if [ -f "$d/demo.py" ]; then demo="/venv/bin/python $d/demo.py"; else demo="bash $d/demo.sh"; fi
 ok=0
 PATH=/venv/bin:$PATH timeout 600 $demo "$wt" >"$wt.clean.log" 2>&1; r0=$?
 echo "demo on unchanged tree: exit $r0 (want 0)"; [ $r0 -eq 0 ] || ok=1
